@@ -96,6 +96,18 @@ def in_subtree(root, x):
     return any(y is x for y in subtree(root))
 
 
+def readonly_battery(n):
+    """Operations that only read (traversals, upward queries, legacy xpath, properties, serialization, printing):
+    they lead back to the same canonical state; the invariant is evaluated after them like after any operation."""
+    from pyoak.legacy.match.xpath import ASTXpath as LX
+
+    list(n.dfs()), list(n.dfs(bottom_up=True, skip_self=True)), list(n.bfs()), list(n.gather(LL))
+    list(n.ancestors()), n.get_depth(), n.children, list(n.get_properties()), n.to_properties_dict()
+    list(n.get_child_nodes_with_field()), n.is_equal(n), n == n, repr(n)
+    LX("//LL").match(n), LX("/LI/@tup[0]").match(n) if False else None
+    n.as_dict(), n.to_json()
+
+
 class Ident(ASTTransformVisitor):
     pass
 
@@ -174,7 +186,7 @@ class Model:
                 for kind in ("rewrite", "remove-a", "raise-b"):
                     ops.append(("execute", r, kind))
         for r in R:
-            ops += [("attach", r), ("detach", r), ("detach_self", r), ("rw_none", r)]
+            ops += [("attach", r), ("detach", r), ("detach_self", r), ("rw_none", r), ("readonly", r)]
             for r2 in R:
                 if r2 != r and not in_subtree(nodes[r2], nodes[r]):
                     ops.append(("rw", r, r2))
@@ -247,6 +259,9 @@ class Model:
             return v.transform(n)
         if k == "execute":
             return make_transformer(op[2]).execute(n)
+        if k == "readonly":
+            readonly_battery(n)
+            return None
         if k == "attach":
             n.attach()
             return None
